@@ -1061,8 +1061,33 @@ pub(crate) fn m_dom_reuse() {
     }
 }
 
+/// A fragment marker inside a word that has to be hard-wrapped is still emitted (once).
+pub(crate) fn m_frag_in_word() {
+    let _which: u8 = kani::any();
+    let html: &[u8] = b"<p>aaaaaaaaaaaaaaaaaaaa<span id=\"mid\">bbbbbbbbbbbbbbbbbbbb</span> tail</p>";
+    for width in [10usize, 15, 50] {
+        let toks = rich_tokens(html, width, false);
+        let n = toks.iter().filter(|(t, _)| t == "#mid").count();
+        assert!(n == 1, "fragment marker emitted {} times at width {}: {:?}", n, width, toks.iter().map(|(t, _)| t.as_str()).collect::<Vec<_>>());
+    }
+}
+
+/// Absurd colspan values are handled like any other: no panic, and the cells' text is rendered.
+pub(crate) fn m_colspan_huge() {
+    let _which: u8 = kani::any();
+    let html: &[u8] = b"<table><tr><td colspan=\"18446744073709551615\">aa</td><td colspan=\"18446744073709551615\">bb</td></tr><tr><td>cc</td><td>dd</td></tr></table>";
+    for width in [10usize, 40] {
+        let out = crate::config::plain().string_from_read(html, width).expect("renders");
+        for w in ["aa", "bb", "cc", "dd"] {
+            assert!(out.contains(w), "{} missing at width {}: {:?}", w, width, out);
+        }
+    }
+    let html2: &[u8] = b"<table><tr><td colspan=\"9223372036854775808\">x</td><td colspan=\"9223372036854775808\">y</td><td colspan=\"3\">z</td></tr></table>";
+    let _ = crate::config::plain().string_from_read(html2, 20);
+}
+
 crate::verif_common::registry! {
-    m_ol_prefix_width, m_dom_reuse, m_columns, m_prefix_blank_lines, m_shallow_empty, m_link_footnotes, m_strike_affix, m_frag_nested, m_dom_children, m_cell_unwind, m_routes_width, m_insert_child, m_ol_numbering, m_prefix_width, m_into_cells, m_table_col_width, m_table_alloc,
+    m_colspan_huge, m_frag_in_word, m_ol_prefix_width, m_dom_reuse, m_columns, m_prefix_blank_lines, m_shallow_empty, m_link_footnotes, m_strike_affix, m_frag_nested, m_dom_children, m_cell_unwind, m_routes_width, m_insert_child, m_ol_numbering, m_prefix_width, m_into_cells, m_table_col_width, m_table_alloc,
     r1_cascade_pairs, r1_cascade_triples, r2_specificity_order, r2_specificity_add,
     r3_ol_prefix_total, r4_ol_prefix_is_max,
     r9_tree_map_reduce_order, r12_config_plumbing, r12_width_zero,
